@@ -20,8 +20,12 @@ def render_nodes(addr, length, endian, nodes, cachable="NoCache", sibling_invali
         en = "BigEndian" if endian else "LittleEndian"
         sg = "Signed" if n.get("sign") else "Unsigned"
         k = n["kind"]
+        if n.get("implicit"):
+            # the schema's defaults left unwritten: no <Endianess> is LittleEndian, no <Sign> is Unsigned
+            en = None if not endian else en
+            sg = None if not n.get("sign") else sg
         if k == "int":
-            out.append(X.int_reg(names[i], addr, length, sign=sg, endian=en, **kw))
+            out.append(X.int_reg(names[i], addr, length, sign=sg, endian=en, representation=n.get("repr"), **kw))
         elif k == "float":
             out.append(X.float_reg(names[i], addr, length, endian=en, **kw))
         elif k == "string":
